@@ -37,7 +37,7 @@ CLAIMED = {
          "DESIGN.md §6 C19, §8"),
  "C04": ("exploration",
          "grammar-based property testing of the GRL parser: files generated from the documented grammar with layout/comment noise, judged by a full structural round trip against the generating AST, by a metamorphic relation (each rule of a file equals the canonical one-line print of that rule parsed alone) and by agreement of the three entry points; exhaustive enumeration of attribute subsets/orders and of small condition trees; optional libFuzzer target over the same byte decoding",
-         "Every parsed Rule (name, salience, flags, groups, dates, condition tree modulo associativity, action list) must equal what was written, in source order, whatever the whitespace, line breaks, comments and neighbouring rules; parse_rule and parse_with_modules must agree with parse_rules. 7 recorded findings (a brace or ' then ' inside a string literal moves a boundary drawn by a regular expression, a ')' inside a string argument of a function call in a condition, tight bare arithmetic, $-forms, parenthesised left sides; four more were repaired by fix commits and are regression cases now) are excluded by per-finding generator switches and re-checked through their witnesses on every run.",
+         "Every parsed Rule (name, salience, flags, groups, dates, condition tree modulo associativity, action list) must equal what was written, in source order, whatever the whitespace, line breaks, comments and neighbouring rules; parse_rule and parse_with_modules must agree with parse_rules. 7 recorded findings (a brace or ' then ' inside a string literal moves a boundary drawn by a regular expression, a ')' inside a string argument of a function call in a condition, tight bare arithmetic, $-forms, parenthesised left sides; four more were repaired by fix commits and are regression cases now) are excluded by per-finding generator switches and re-checked through their witnesses on every run. The quick command runs the check twice: on the default build (debug assertions on) and on a build without debug assertions.",
          "Grammar = the documented one minus aspirational constructs; Rule.description is not judged (the statement does not list it). Each known finding's switch is armed only while its `known:` line is present.",
          "DESIGN.md §6 C04, §10.5"),
  "C05": ("exploration",
@@ -120,7 +120,12 @@ NA_REASON = {}
 
 # thorough commands that are more than one run of the same binary
 THOROUGH = {
- "C05": "./check C05 thorough && VERIF_PROFILE=o0 ./check C05 quick && tools/c05_fuzz.sh 1000000 5000",
+ "C05": "./check C05 thorough && VERIF_PROFILE=o0 ./check C05 quick && VERIF_PROFILE=rel ./check C05 quick && tools/c05_fuzz.sh 1000000 5000",
+}
+# quick commands that are more than one run: the parser check also runs on the build without debug assertions (what a
+# user's --release build executes; a debug_assert! with a side effect differs there -- seeded change C04_8)
+QUICK = {
+ "C04": "./check C04 quick && VERIF_PROFILE=rel ./check C04 quick",
 }
 
 def main():
@@ -131,8 +136,8 @@ def main():
         cat, tech, text, note, ref = CLAIMED[pid]
         checks.append({
             "property_id": pid,
-            "quick_cmd": f"./check {pid} quick",
-            "thorough_cmd": THOROUGH.get(pid, f"./check {pid} thorough"),
+            "quick_cmd": QUICK.get(pid, f"./check {pid} quick"),
+            "thorough_cmd": THOROUGH.get(pid, f"./check {pid} thorough && VERIF_PROFILE=rel ./check {pid} quick"),
             "evidence_file": f"/verif/evidence/{pid}.json",
             "replay_cmd_template": f"./check {pid} --replay {{path}}",
             "engine": "rre-check",
@@ -144,7 +149,7 @@ def main():
           for p in ALL if p not in CLAIMED]
     m = {
         "version": 1,
-        "setup_cmd": "cd /verif/harness && CARGO_NET_OFFLINE=true cargo build --bin rre-check",
+        "setup_cmd": "cd /verif/harness && CARGO_NET_OFFLINE=true cargo build --bin rre-check && CARGO_NET_OFFLINE=true cargo build --bin rre-check --profile rel",
         "hooks": {
             "guard": "cargo feature `verif-hooks` of rust-rule-engine (off by default)",
             "enable": "the harness crate /verif/harness depends on /repo by path with features [streaming, backward-chaining, verif-hooks]; ./check runs cargo build before every run",
@@ -157,7 +162,7 @@ def main():
              "kind_free_text": "Rust binary: proptest TestRunner over byte strings decoded by per-property generators (shrinking by proptest), exhaustive choice-tree enumeration for small scopes, executable reference models / differentials as oracles, watchdog monitor process for hangs and crashes"},
         ],
         "checks": checks,
-        "notes": "Exit codes: 0 held, 1 violation (VIOLATION line), 2 could not run / inconclusive. VERIF_SEED selects the seed (default 1). KNOWN_FINDINGS.txt lists recorded defects; see DESIGN.md §5.",
+        "notes": "Exit codes: 0 held, 1 violation (VIOLATION line), 2 could not run / inconclusive. VERIF_PROFILE=rel runs the same check on a build without debug assertions (evidence then goes to evidence/<ID>.rel.json; the main evidence file is kept). VERIF_SEED selects the seed (default 1). KNOWN_FINDINGS.txt lists recorded defects; see DESIGN.md §5.",
         "not_applicable": na,
     }
     json.dump(m, open(os.path.join(ROOT, "MANIFEST.json"), "w"), indent=1)
